@@ -29,6 +29,9 @@ PLANE_M (EXTRACT, ortho, true, 0) PLANE_M (EXTRACT, ortho, true, 1) PLANE_M (EXT
 PLANE_M (EXTRACT, ortho, true, 3) PLANE_M (EXTRACT, ortho, true, 4) PLANE_M (EXTRACT, ortho, true, 5)
 
 // DepthToZ up to the `long` cast: the value Zp with  DepthToZ (depth, zmin, zmax) = long (0.5 * (Zp + 1) * zdiff) + zmin.
-// (c16_corr.cpp checks that equation against the real DepthToZ, bit for bit.)
+// These two entries call the TRANSCRIPT at every type (their TV compares the transcript with itself).  The tie to the real code is
+// (a) the theorem depthToZp_*_real_body (Props/C16Z.lean): the definitions emitted here equal the operand of the cast in
+// Gen.Frustum.DepthToZ_*_3_10, which sym_c16.cpp extracts from the REAL body (sym.h: `long (x)` records x) with bitwise TV at double, and
+// (b) c16_corr.cpp, which checks the equation above against the real DepthToZ at float and double.
 EXTRACT ("C16PlanesM", depthToZp_persp, "Frustum.depthToZp_persp", { FRUSTUM_IN (false); T depth = c.inS ("depth"); c.outS (c16_depthToZp (fr, depth)); })
 EXTRACT ("C16PlanesM", depthToZp_ortho, "Frustum.depthToZp_ortho", { FRUSTUM_IN (true); T depth = c.inS ("depth"); c.outS (c16_depthToZp (fr, depth)); })
